@@ -486,15 +486,6 @@ theorem joinWith_eq_joinComma (xs : List Str) : joinWith ',' xs = joinComma id x
     | nil => rfl
     | cons y ys => simp only [joinWith, joinComma, id, ih]
 
-theorem joinComma_eq_joinWith_map {α} (f : α → Str) (xs : List α) :
-    joinComma f xs = joinWith ',' (xs.map f) := by
-  induction xs with
-  | nil => rfl
-  | cons a t ih =>
-    cases t with
-    | nil => rfl
-    | cons b t' => simp only [joinComma, joinWith, List.map_cons] at ih ⊢; rw [ih]
-
 theorem alphanumeric1_append {c r : Str} (hc : alnum1 c) (hr : Delim r) : alphanumeric1 (c ++ r) = some (c, r) := by
   apply many1_append hc.1 hc.2
   intro x r' e
